@@ -1005,3 +1005,100 @@ func elemIndexSummary(h *ssa.Function) (sliceParam, keyParam int, notFound int64
 	}
 	return sliceParam, keyParam, notFound, true
 }
+
+// R11DecoyStatus: "every other request gets the decoy 404". gin answers 200 unless a status was written, and the
+// first body write fixes the status line. So in fake404 every path from the entry to a return must pass a call that
+// writes the status 404, and no body write may come before it.
+func R11DecoyStatus(c *Ctx) {
+	const rule = "R11-decoy-status"
+	c.R.Rule(rule, "in (*HTTP).fake404 every path from the entry to a return passes a call that writes the status 404 (WriteHeader/Status/Data/String/AbortWithStatus/http.Error with the constant 404, http.NotFound, or a helper of the package that does so on all its paths), and no body write (Write/WriteString on the response writer) lies on a path in front of it: a return that was reached without it answers gin's default 200", 1)
+	fn := c.P.Func(PkgHandlers, "HTTP.fake404")
+	if fn == nil || fn.Blocks == nil {
+		c.R.Anchor(rule, "handlers.(*HTTP).fake404")
+		return
+	}
+	var always404 func(f *ssa.Function, depth int) (bool, ssa.Instruction, string)
+	sets404 := func(call ssa.CallInstruction, depth int) bool {
+		name := CalleeName(call)
+		if name == "net/http.NotFound" {
+			return true
+		}
+		if strings.Contains(name, "github.com/gin-gonic/gin.") || strings.HasPrefix(name, "net/http.") || strings.HasPrefix(name, "(net/http.") {
+			for _, a := range CallArgs(call) {
+				if n, ok := ConstInt(a); ok && n == 404 {
+					if bt, isB := a.Type().Underlying().(*types.Basic); isB && bt.Info()&types.IsInteger != 0 {
+						return true
+					}
+				}
+			}
+			return false
+		}
+		if h := call.Common().StaticCallee(); h != nil && h.Blocks != nil && FuncPkgPathOf(h) == PkgHandlers && depth > 0 {
+			if _, isDefer := call.(*ssa.Defer); isDefer {
+				return false
+			}
+			ok, _, _ := always404(h, depth-1)
+			return ok
+		}
+		return false
+	}
+	writesBody := func(call ssa.CallInstruction) bool {
+		name := CalleeName(call)
+		if call.Common().IsInvoke() && (call.Common().Method.Name() == "Write" || call.Common().Method.Name() == "WriteString") {
+			return strings.Contains(name, "gin.ResponseWriter") || strings.Contains(name, "net/http.ResponseWriter") || strings.Contains(name, "io.Writer") || strings.Contains(name, "io.StringWriter")
+		}
+		return false
+	}
+	always404 = func(f *ssa.Function, depth int) (bool, ssa.Instruction, string) {
+		seen := map[*ssa.BasicBlock]bool{}
+		var bad ssa.Instruction
+		var why string
+		var walk func(b *ssa.BasicBlock) bool
+		walk = func(b *ssa.BasicBlock) bool {
+			if seen[b] {
+				return true
+			}
+			seen[b] = true
+			for _, in := range b.Instrs {
+				switch x := in.(type) {
+				case ssa.CallInstruction:
+					if _, isGo := x.(*ssa.Go); isGo {
+						continue
+					}
+					if _, isDefer := x.(*ssa.Defer); isDefer {
+						continue
+					}
+					if sets404(x, depth) {
+						return true
+					}
+					if writesBody(x) {
+						bad, why = in, "a body write comes before the status: the status line has gone out as 200 by the time 404 is written"
+						return false
+					}
+				case *ssa.Return:
+					bad, why = in, "this return is reached on a path that wrote no 404 status: the rejected request is answered with gin's default 200"
+					return false
+				}
+			}
+			for _, s := range b.Succs {
+				if !walk(s) {
+					return false
+				}
+			}
+			return true
+		}
+		ok := walk(f.Blocks[0])
+		return ok, bad, why
+	}
+	construct := "status 404 on every path of the decoy"
+	ok, bad, why := always404(fn, 2)
+	if ok {
+		c.R.Ok(rule, FuncShort(fn), construct, c.pos(fn.Pos()), "every path to a return passes a call that writes the status 404 before any body write", true)
+		return
+	}
+	p := fn.Pos()
+	if bad != nil && bad.Pos().IsValid() {
+		p = bad.Pos()
+	}
+	c.R.Bad(rule, FuncShort(fn), construct, c.pos(p), why)
+}
